@@ -70,6 +70,17 @@ VERDICT = {
     "C13-4": ("C13 K1c", "module-level ignore scope kernel (fastparse) added after the miss"),
     "C15-3": ("C15 K1d", "GetIntDigits kernel added after the miss; replay = real mypyc build"),
     "C15-4": ("C05, C15 K2", "as it stood (the sub-agent independently re-made the slip of C15-2 for all fixed-width types)"),
+    # third round
+    "C04-3": ("C04", "as it stood (new durable-state keys for the sqlite store)"),
+    "C04-4": ("C04", "as it stood (the sub-agent independently re-made the slip of C04-2)"),
+    "C05-4": (None, "evaluation order of index / attribute assignment targets: needs containers and attributes, outside the int/bool/fixed-width fragment"),
+    "C05-5": (None, "separate compilation mode (cross-group attribute defaults): build modes are outside the claim"),
+    "C06-6": ("C06", "as it stood (same slip as C06-5)"),
+    "C06-7": ("C06 K-glue", "call-wrapper ownership kernel (emitted C -> LLVM IR -> z3) added after the miss; replay = real build"),
+    "C10-3": ("C10 S1", "best_matches kernel added after the sub-agent's report (the check as it stood did not cover it)"),
+    "C10-4": ("C10 H2", "guard-stack kernel added after the sub-agent's report; replay = two orders of the file arguments"),
+    "C20-3": ("C20 K5", "TransformVisitor fidelity kernel added after the sub-agent's report; replay = real mypy on a function over AnyStr"),
+    "C20-4": ("C20 K4b", "visitor sweep on recursive aliases added after the sub-agent's report; replay = mypy --cache-fine-grained"),
     "C20-1": ("C20 K4", "recursion kernel (dangerous_comparison on recursive alias types from a real build) added after the miss; replay = real mypy --strict-equality"),
     "C20-2": ("C20 K3", "daemon work-list kernel added after the miss; replay = real daemon under a time limit vs a fresh run"),
 }
